@@ -179,6 +179,7 @@ LeakedIds(S) == DOMAIN S.kw \ {S.store[k].id : k \in DOMAIN S.store}
 \* the worker finds no room for its put, but would find it if only held keys were charged
 PhantomPressure(S, a) ==
   /\ a = "worker" /\ S.pc[a] = "A_Space" /\ LeakedIds(S) # {}
+  /\ ~S.shut                                   \* (shutdown clears the store before the weights: nothing to judge then)
   /\ S.lc[a].w <= S.cfg.max
   /\ S.cfg.max - (S.used - SumSet([id \in LeakedIds(S) |-> S.kw[id].w], LeakedIds(S))) >= S.lc[a].w
 
